@@ -27,7 +27,7 @@ RULE = ('seeded analytic truth motions (|lat|<=85 both hemispheres, speed <=300 
 ASSUMPTIONS = ['accelerometer floor 100 eps R / h^2: the readings come from a spline second derivative of a 6.4e6 m vector (measured at rest: '
                '~20 eps R / h^2)', 'samples within 12 knots of either end carry spline end-condition error (decays ~0.27 per knot) and are '
                'checked with the shrink test only', 'for increment type the duplicated first sample is not compared']
-REQUIRED_OBS = ['stamps_not_from_zero', 'rest_stamps_not_from_zero', 'rest_stamps_irregular', 'long_closed_paths', 'closed_latitude_paths', 'accel_increment_order_checked', 'increment_order_checked', 'reading_ladders', 'trajectory_ladders', 'inversion_ladders', 'at_rest_checked', 'sine_motion_checked', 'forms_compared',
+REQUIRED_OBS = ['rest_slow_clock_drift', 'stamps_not_from_zero', 'rest_stamps_not_from_zero', 'rest_stamps_irregular', 'long_closed_paths', 'closed_latitude_paths', 'accel_increment_order_checked', 'increment_order_checked', 'reading_ladders', 'trajectory_ladders', 'inversion_ladders', 'at_rest_checked', 'sine_motion_checked', 'forms_compared',
                 'readings_above_floor']
 REQUIRED_CLASSES = {'all': ['motion', 'rest', 'sine', 'long_closed']}
 EPS = np.finfo(float).eps
@@ -237,7 +237,11 @@ def run_rest(case, out, obs):
     frng = np.random.Generator(np.random.PCG64(case['seed'] + 31))
     t0 = float(frng.choice([0.0, 120.0, 3600.0, 86400.0]))
     mode = str(frng.choice(['uniform', 'uniform', 'jitter', 'two_rate']))
-    tt = forms.stamps(n - 1, h, frng, mode, t0=t0)
+    if case['seed'] % 10 == 7:
+        # a sampling clock that drifts by a few ppm over a long record: neighbouring intervals differ by < 1e-12 s, first and last by 5e-8 s
+        mode, n = 'drift', 60001
+        obs['rest_slow_clock_drift'] = 1
+    tt = forms.stamps(n - 1, h, frng, mode, t0=t0) if mode != 'drift' else t0 + np.r_[0.0, np.cumsum(h * (1 + 5e-6 * np.arange(n - 1) / (n - 1)))]
     obs['rest_stamps_not_from_zero'] = int(t0 != 0)
     obs['rest_stamps_irregular'] = int(mode != 'uniform')
     hmin = float(np.diff(tt).min())
@@ -252,7 +256,7 @@ def run_rest(case, out, obs):
     L, Rr, V = np.tile(lla, (n, 1)), np.tile(rph, (n, 1)), np.zeros((n, 3))
     # rounding of the position (eps * 6.4e6 m) and of the stamps themselves (eps * t0 at the inertial speed ~465 m/s), differentiated twice
     tol_a = 100 * EPS * (6.4e6 + 465.0 * tt[-1]) / hmin ** 2
-    for form, (a, b) in {'pos+vel': (L, V), 'pos': (L, None), 'init+vel': (lla.copy(), V)}.items():
+    for form, (a, b) in ({'pos+vel': (L, V), 'pos': (L, None), 'init+vel': (lla.copy(), V)} if mode != 'drift' else {'pos+vel': (L, V)}).items():
         for st in ('rate', 'increment'):
             tr, imu = sim.generate_imu(tt, a, Rr, b, sensor_type=st)
             sc = np.r_[tt[1] - tt[0], np.diff(tt)][:, None] if st == 'increment' else 1.0
